@@ -190,7 +190,7 @@ def run_history_check(prop, tier, mode, runs, cat, budget_s, design_ref, assumpt
                     cls = "image_depends_on_heap_garbage"
                 elif k == "obs_lans" and "obs_bans" not in diffs and (prop == "C06" or c07):
                     cls = "loaded_state_depends_on_heap_garbage"
-                elif k in ("obs_ans", "obs_bans", "obs_lans") and (c07 or prop == "C14"):
+                elif k in ("obs_ans", "obs_bans", "obs_lans") and c07:
                     cls = "answers_depend_on_heap_garbage"
                 if cls is None:
                     agg["other"]["universe_difference:%s" % k] += 1
